@@ -127,14 +127,23 @@ def _reach(g, x):
 
 def _subject_case(args):
     """one subject-priority policy through the real enforcer: stored order, decisions, or the exception"""
-    g, p, dom = args
+    g, p, dom = args[:3]
+    bulk = len(args) > 3 and args[3]
     casbin = common.use_repo()
     text = SUBJ_DOM if dom else SUBJ
     m = casbin.Enforcer.new_model(text=text)
     rules = [("g", "g", r) for r in g] + [("p", "p", r) for r in p]
     ad = pc.make_adapter(casbin, rules)
     try:
-        e = casbin.Enforcer(m, ad)
+        if bulk:
+            # the bulk-load pattern: automatic link building off, load, then one explicit build_role_links
+            e = casbin.Enforcer(m)
+            e.enable_auto_build_role_links(False)
+            e.set_adapter(ad)
+            e.load_policy()
+            e.build_role_links()
+        else:
+            e = casbin.Enforcer(m, ad)
     except Exception as ex:  # noqa
         return {"error": "!cycle" if "cycle dependency" in str(ex) else f"!other:{type(ex).__name__}:{str(ex)[:60]}"}
     order = [list(r) for r in e.get_policy()]
@@ -179,6 +188,8 @@ def run_subject(ctx, res, deep):
                 p = p + [[p[0][0]] + p[0][1:-1] + ["deny" if p[0][-1] == "allow" else "allow"]]  # same subject twice: arrival order among equals
                 rng.shuffle(p)
                 cases.append((gg, p, dom))
+                if len(cases) % 5 == 0:
+                    cases.append((gg, p, dom, True))
     # deep hierarchies: the level of a subject is not bounded by the role manager's depth bound
     global SNAMES_DEEP
     for depth in (9, 10, 11, 12, 14):
@@ -189,20 +200,23 @@ def run_subject(ctx, res, deep):
             # the ancestor's rule arrives first, the descendant's effect is the opposite one
             p = [[names[hi], "data1", "read", "deny"], [names[hi - 1], "data1", "read", "allow"], [names[0], "data1", "read", "deny"], [names[hi - 2], "data1", "read", "deny"]]
             cases.append((g, p, False))
+            cases.append((g, p, False, True))
     with mp.Pool(12) as pool:
         outs = pool.map(_subject_case, cases, chunksize=32)
     lines = []
-    for g, p, dom in cases:
+    for g, p, dom in [c[:3] for c in cases]:
         lines += ["#reset", "\t".join(["set", "p:p", common.enc_rules(p)]), "\t".join(["sortsubj", "p:p", "2" if dom else "-", common.enc_rules(g)])]
     answers = common.run_driver("policy", lines)
-    for k, ((g, p, dom), out) in enumerate(zip(cases, outs)):
+    for k, (cfull, out) in enumerate(zip(cases, outs)):
+        g, p, dom = cfull[:3]
         ans = answers[3 * k + 2]
         model, _ = common.parse_ms(ans)
         mres, mpol = model.split("@", 1)
         res.evaluations += 1
         res.count("subject:" + ("cycle" if mres == "!cycle" else "sorted"))
         res.nontrivial.add(hash(("subj", repr(g), repr(p))))
-        case = {"shape": "subject-priority" + ("-dom" if dom else ""), "g": g, "p": p}
+        case = {"shape": "subject-priority" + ("-dom" if dom else ""), "g": g, "p": p, "bulk": len(cfull) > 3}
+        res.count("subject-load:" + ("bulk" if len(cfull) > 3 else "constructor"))
         if mres == "!fuel":
             raise common.Infra("hierarchyLoop ran out of fuel")
         if "error" in out:
@@ -303,7 +317,7 @@ def _work(group):
 def replay(obj):
     if obj.get("kind_of_case") == "subject":
         c = obj["case"]
-        out = _subject_case((c["g"], c["p"], c["shape"].endswith("-dom")))
+        out = _subject_case((c["g"], c["p"], c["shape"].endswith("-dom"), c.get("bulk", False)))
         if "error" in out:
             return obj.get("expected") == "loads"
         edges = [(r[0], r[1]) for r in c["g"]]
